@@ -352,6 +352,46 @@ func c13IdleX(rc *simrt.RunCtx, mode string) {
 	s2c.latMin, s2c.latMax = lat, lat
 	np.s2c.sendLag = lag
 	np.s2c.mu.Unlock()
+	// Did the peer answer? A keepalive closure is what C13 asks for if the
+	// endpoint, after hearing nothing for its ping time, transmitted something
+	// (its ping, or the retransmission that serves as the probe on a full
+	// window) and then heard nothing for its pong timeout - whatever kept the
+	// peer from answering. Per endpoint: when something was last delivered to
+	// it, and what it has transmitted since; evaluated when it sends its FIN.
+	var amu sync.Mutex
+	lastHeard := map[string]time.Duration{"(client)": rc.Now(), "(server)": rc.Now()}
+	sentSince := map[string][]time.Duration{}
+	probedInVain := map[string]bool{}
+	pingOf := map[string]time.Duration{"(client)": tkC.ping, "(server)": tkS.ping}
+	pongOfWho := map[string]time.Duration{"(client)": tkC.pong, "(server)": tkS.pong}
+	mon := func(out, in *link, who string) {
+		out.mu.Lock()
+		out.onSend = func(b []byte) {
+			amu.Lock()
+			now := rc.Now()
+			if len(b) > 0 && b[0] == FIN {
+				for _, t := range sentSince[who] {
+					if t-lastHeard[who] >= pingOf[who]-5*time.Millisecond && now-t >= pongOfWho[who] {
+						probedInVain[who] = true
+					}
+				}
+			} else if len(sentSince[who]) < 4096 {
+				sentSince[who] = append(sentSince[who], now)
+			}
+			amu.Unlock()
+		}
+		out.mu.Unlock()
+		in.mu.Lock()
+		in.tap = func([]byte) {
+			amu.Lock()
+			lastHeard[who] = rc.Now()
+			sentSince[who] = sentSince[who][:0]
+			amu.Unlock()
+		}
+		in.mu.Unlock()
+	}
+	mon(np.c2s, np.s2c, "(client)")
+	mon(np.s2c, np.c2s, "(server)")
 	if lostAck {
 		for _, l := range []*link{np.c2s, np.s2c} {
 			l := l
@@ -402,7 +442,11 @@ func c13IdleX(rc *simrt.RunCtx, mode string) {
 		seen := map[byte]bool{} // DATA sequence numbers offered since the burst began
 		retransmitted := false  // ... one of them for the second time: the losses end there
 		np.c2s.mu.Lock()
+		prevOnSend := np.c2s.onSend
 		np.c2s.onSend = func(b []byte) {
+			if prevOnSend != nil {
+				prevOnSend(b)
+			}
 			if len(b) >= 4 && b[0] == DATA {
 				fmu.Lock()
 				if seen[b[1]] {
@@ -475,6 +519,16 @@ func c13IdleX(rc *simrt.RunCtx, mode string) {
 				// closed, but not by keepalive: outside this property
 				rc.Probe("c13.closed-for-another-reason")
 				simrt.Note("closed for another reason: %v", reasons)
+				break
+			}
+			amu.Lock()
+			vain := probedInVain[who]
+			amu.Unlock()
+			if vain {
+				// it probed after a ping time of silence and nothing reached
+				// it for a pong timeout: the peer did not answer that probe
+				rc.Probe("c13.closed-because-peer-did-not-answer")
+				simrt.Note("%s closed by keepalive after a probe that nothing answered within the pong timeout", who)
 				break
 			}
 			rc.Violate("c13.healthy-peer-dropped", who, "%s closed a healthy connection after %v idle (one-way latency %v, ping %v/%v, pong %v, resend %v/%v, N=%d, %d messages sent)",
